@@ -203,7 +203,12 @@ package ast
 //@ ghost var $height array[Ref]int
 //@ macro func lowerE(c *Expression, h int) bool { return c != nil ==> $height[c] < h }
 //@ macro func lowerA(c *ExpressionAtom, h int) bool { return c != nil ==> $height[c] < h }
-//@ macro func treeWF() bool { return forall x *Expression :: x != nil ==> (x.ExpressionAtom != nil || x.SingleExpression != nil || (x.LeftExpression != nil && x.RightExpression != nil)) && lowerE(x.LeftExpression, $height[x]) && lowerE(x.RightExpression, $height[x]) && lowerE(x.SingleExpression, $height[x]) && lowerA(x.ExpressionAtom, $height[x]) }
+//@ macro func exprWF() bool { return forall x *Expression :: x != nil ==> (x.ExpressionAtom != nil || x.SingleExpression != nil || (x.LeftExpression != nil && x.RightExpression != nil)) && lowerE(x.LeftExpression, $height[x]) && lowerE(x.RightExpression, $height[x]) && lowerE(x.SingleExpression, $height[x]) && lowerA(x.ExpressionAtom, $height[x]) }
+//@ macro func lowerR(c Ref, h int) bool { return c != nil ==> $height[c] < h }
+// the same for atoms: the rank strictly decreases to the inner atom, the variable, the call and the selector
+//@ macro func atomWF() bool { return forall a *ExpressionAtom {a.Evaluated} :: a != nil ==> lowerR(a.ExpressionAtom, $height[a]) && lowerR(a.Variable, $height[a]) && lowerR(a.FunctionCall, $height[a]) && lowerR(a.ArrayMapSelector, $height[a]) }
+//@ macro func treeWF() bool { return exprWF() && atomWF() }
+//@ macro func atomsAboveUntouched(n Ref) bool { return forall a *ExpressionAtom {a.Evaluated} :: $height[a] > $height[n] ==> a.Evaluated == old(a.Evaluated) && a.Value == old(a.Value) }
 //@ macro func aboveUntouched(h int) bool { return (forall x *Expression :: $height[x] > h ==> x.Evaluated == old(x.Evaluated) && x.Value == old(x.Value)) }
 //@ macro func isBinary(e *Expression) bool { return e.ExpressionAtom == nil && e.SingleExpression == nil && e.LeftExpression != nil && e.RightExpression != nil }
 //@ func (e *Expression) Evaluate(dataContext, memory) (val, err)
@@ -411,23 +416,74 @@ package ast
 //@   ensures forall x *Expression :: old(x.Evaluated) ==> x.Evaluated && x.Value == old(x.Value)
 //@   ensures forall a *ExpressionAtom :: old(a.Evaluated) ==> a.Evaluated && a.Value == old(a.Value)
 //@   ensures err == nil ==> $varRes[e] == val
+//@   ensures atomsAboveUntouched(e)
 //@ extern func (e *ArrayMapSelector) Evaluate(dataContext, memory) (val, err)
 //@   modifies @memo, $exprRes, $varRes, $atomRes
 //@   ensures forall x *Expression :: old(x.Evaluated) ==> x.Evaluated && x.Value == old(x.Value)
 //@   ensures forall a *ExpressionAtom :: old(a.Evaluated) ==> a.Evaluated && a.Value == old(a.Value)
 //@   ensures err == nil ==> e.Value == val
-//@ extern func (e *ExpressionAtom) Evaluate(dataContext, memory) (val, err)
+//@   ensures atomsAboveUntouched(e)
+// ExpressionAtom.Evaluate: the memo discipline is CHECKED against the body (memo hit does no work; the flag is only ever
+// set together with the value that is returned, never on an error path; every memoising branch sets it on success). The
+// A-NESTED / monotonicity / rank clauses callers rely on stay ASSUMED (trusted_ensures): they are about what the callees
+// below (variables, selectors, user functions reached through ValueNode.CallFunction) may touch.
+//@ func (e *ExpressionAtom) Evaluate(dataContext, memory) (val, err)
+//@   serves C01 C02 C13
+//@   requires treeWF()
 //@   modifies @actions
-//@   ensures forall re *RuleEntry :: old(re.Retracted) ==> re.Retracted
-//@   ensures forall d Ref :: old($complete[d]) ==> $complete[d]
-//@   ensures ($depth > 0 || !$inAction) ==> unchanged("userstate") && unchanged("setlog") && unchanged("asglog")
-//@   ensures forall x *Expression :: $height[x] >= $height[e] ==> x.Evaluated == old(x.Evaluated) && x.Value == old(x.Value)
-//@   ensures ($depth > 0 || !$inAction) ==> (forall x *Expression :: old(x.Evaluated) ==> x.Evaluated && x.Value == old(x.Value)) && (forall a *ExpressionAtom :: old(a.Evaluated) ==> a.Evaluated && a.Value == old(a.Value))
-//@   ensures old(e.Evaluated) ==> err == nil && val == old(e.Value) && unchanged("memo") && unchanged("userstate")
-//@   ensures e.Evaluated && !old(e.Evaluated) ==> err == nil && e.Value == val
-//@   ensures err == nil ==> $atomRes[e] == val
+//@   trusted_ensures atomsAboveUntouched(e)
+//@   ghost_exit $atomRes = ite(err == nil, store($atomRes, e, val), $atomRes)
+//@   trusted_ensures forall re *RuleEntry :: old(re.Retracted) ==> re.Retracted
+//@   trusted_ensures forall d Ref :: old($complete[d]) ==> $complete[d]
+//@   trusted_ensures ($depth > 0 || !$inAction) ==> unchanged("userstate") && unchanged("setlog") && unchanged("asglog")
+//@   trusted_ensures forall x *Expression :: $height[x] >= $height[e] ==> x.Evaluated == old(x.Evaluated) && x.Value == old(x.Value)
+//@   trusted_ensures ($depth > 0 || !$inAction) ==> (forall x *Expression :: old(x.Evaluated) ==> x.Evaluated && x.Value == old(x.Value)) && (forall a *ExpressionAtom :: old(a.Evaluated) ==> a.Evaluated && a.Value == old(a.Value))
+//@   ensures[C13] memohit: old(e.Evaluated) ==> err == nil && val == old(e.Value) && unchanged("memo") && unchanged("userstate")
+//@   ensures[C01,C02,C13] memoconsistent: e.Evaluated && !old(e.Evaluated) ==> err == nil && e.Value == val
+//@   checks[C13] memoset: err == nil && (e.Constant != nil || e.Variable != nil || (e.ExpressionAtom != nil && (e.FunctionCall != nil || len(e.VariableName) > 0 || e.ArrayMapSelector == nil))) ==> e.Evaluated
 //@   panic_ensures forall re *RuleEntry :: old(re.Retracted) ==> re.Retracted
 //@   panic_ensures forall d Ref :: old($complete[d]) ==> $complete[d]
+// callees of the atom: constants are checked; the rest is user / reflection territory (T-USER, T-REFLECT, A-NESTED), bounded by
+// the same frame as the atom itself
+//@ func (e *Constant) Evaluate(dataContext, memory) (val, err)
+//@   serves C01 C02 C13
+//@   requires e != nil
+//@   nopanic
+//@   modifies
+//@   ensures err == nil
+//@ extern func (d IDataContext) Get(key) (vn)
+//@   modifies
+//@ extern func (e *FunctionCall) EvaluateArgumentList(dataContext, memory) (args, err)
+//@   modifies @actions
+//@   ensures atomsAboveUntouched(e)
+//@   ensures forall re *RuleEntry :: old(re.Retracted) ==> re.Retracted
+//@   ensures forall d Ref :: old($complete[d]) ==> $complete[d]
+//@   panic_ensures forall re *RuleEntry :: old(re.Retracted) ==> re.Retracted
+//@   panic_ensures forall d Ref :: old($complete[d]) ==> $complete[d]
+//@ extern func (n model.ValueNode) CallFunction(funcName, args) (ret, err)
+//@   modifies @actions
+// T-USER: user functions do not reach into the engine's memo
+//@   ensures unchanged("memo")
+//@   ensures forall re *RuleEntry :: old(re.Retracted) ==> re.Retracted
+//@   ensures forall d Ref :: old($complete[d]) ==> $complete[d]
+//@   panic_ensures forall re *RuleEntry :: old(re.Retracted) ==> re.Retracted
+//@   panic_ensures forall d Ref :: old($complete[d]) ==> $complete[d]
+//@ extern func (n model.ValueNode) ContinueWithValue(value, identifiedAs) (vn)
+//@   modifies
+//@ extern func (n model.ValueNode) GetChildNodeByField(field) (vn, err)
+//@   modifies
+//@ extern func (n model.ValueNode) GetChildNodeByIndex(index) (vn, err)
+//@   modifies
+//@ extern func (n model.ValueNode) GetChildNodeBySelector(index) (vn, err)
+//@   modifies
+//@ extern func (n model.ValueNode) Value() (v)
+//@   modifies
+//@ extern func (n model.ValueNode) IdentifiedAs() (s)
+//@   modifies
+//@ extern func model.NewGoValueNode(value, identifiedAs) (vn)
+//@   nopanic
+//@   modifies
+//@   ensures vn != nil
 
 // idx[v]: the expressions / atoms the working memory files under variable v
 //@ macro func inExprIdx(m *WorkingMemory, v *Variable, x *Expression) bool { return has(m.expressionVariableMap, v) && (exists k int :: 0 <= k && k < len(m.expressionVariableMap[v]) && m.expressionVariableMap[v][k] == x) }
